@@ -53,6 +53,7 @@ func (eng *Engine) verifyFunction(fn *ssa.Function, key string, c *Contract) (re
 			name = fmt.Sprintf("arg%d", i)
 		}
 		ex.params[name] = v
+		ex.paramVals = append(ex.paramVals, v)
 		for j, ct := range v.C {
 			ex.inputs = append(ex.inputs, inputSym{fmt.Sprintf("%s.%d", name, j), ct})
 		}
